@@ -50,6 +50,7 @@ fn format_node<'source>(
         Node::Nested(nested) => GroupBuilder::new(3, node, ctx, trivia)
             .char('(')
             .node(*nested)
+            .add_inner_trivia()
             .char(')')
             .build(),
         Node::Id(index, type_hint) => {
@@ -219,6 +220,7 @@ fn format_node<'source>(
             .char('[')
             .maybe_indent()
             .list_elements(elements)
+            .add_inner_trivia()
             .maybe_return()
             .char(']')
             .build(),
@@ -323,7 +325,7 @@ fn format_node<'source>(
                     }
                 }
 
-                group.maybe_return().char('}').build()
+                group.add_inner_trivia().maybe_return().char('}').build()
             } else {
                 let mut group =
                     GroupBuilder::new(entries.len() * 4 + 1, node, ctx, trivia).start_block();
@@ -1224,6 +1226,16 @@ impl<'source, 'trivia> GroupBuilder<'source, 'trivia> {
             },
             TriviaPosition::LineEnd,
         );
+        self
+    }
+
+    // Adds any trivia that's left inside the group's span.
+    //
+    // This is used before a closing bracket is added to the group: a comment that follows the
+    // group's last element has to stay inside the brackets, otherwise whatever follows the closing
+    // bracket on the same line would become part of the comment.
+    fn add_inner_trivia(mut self) -> Self {
+        self.add_trivia(self.group_span.end, TriviaPosition::Any);
         self
     }
 
